@@ -14,7 +14,7 @@ PROPS['C03'] = dict(
         dict(name='seq', variant='asan', harness='c03_api.cpp', quick=2500, thorough=40000, budget=60),
         dict(name='seq-nd', variant='asan-nd', harness='c03_api.cpp', quick=0, thorough=15000, budget=60),
         # uninitialised-value use: valgrind memcheck over short deterministic sequences in the uninstrumented build
-        dict(name='memcheck', variant='plain-d', harness='c03_api.cpp', quick=64, thorough=1600, budget=1200, wall=3000,
+        dict(name='memcheck', variant='plain-d', harness='c03_api.cpp', quick=64, thorough=1600, budget=150, wall=2400,
              wrapper=['valgrind', '-q', '--error-exitcode=79', '--exit-on-first-error=yes', '--track-origins=no', '--leak-check=no']),
     ],
 )
